@@ -3,7 +3,7 @@ NEXT Next
 CONSTANTS
   NS = 3
   NT = 2
-  Vals <- MCValsFull
+  Vals <- MCValsFour
   TagA <- MCTagA
   TagB <- MCTagB
   R = 2
